@@ -159,6 +159,14 @@ class Real(object):
                 ret = {"tag": "dict", "val": {n: (self.tok.token(x) or {"k": "FOREIGN", "x": repr(x)}) for n, x in r.items()}}
             elif ev == "read_par_file":
                 self.p = self.mod.read_par_file(self.path)
+            elif ev == "fork":
+                q = self.mod.parameters()
+                q.set_parameters(self.p.get_parameters())
+                q.set(e["n"], V(e["v"]))
+                q.addpar(self.mod.par("forked_only", 1, vary=True, can_vary=True, stepsize=0.5))
+                r = q.get(e["n"])
+                t = self.tok.token(r)
+                ret = {"tag": "value", "val": t if t is not None else {"k": "FOREIGN", "x": repr(r)}}
             elif ev == "set":
                 self.p.set(e["n"], V(e["v"]))
             elif ev == "set_parameters":
@@ -296,7 +304,7 @@ def record_traces(n, maxlen, seed, wd):
         st.tuples(st.just("addpar_sl"), names, vals, st.booleans(), st.booleans(), vals),
         st.tuples(st.just("construct"), st.dictionaries(names, vals, max_size=3)),
         st.tuples(st.just("get_variable_stepsizes")), st.tuples(st.just("get_variable_list")),
-        st.tuples(st.just("get_parameters")), st.tuples(st.just("read_par_file")))
+        st.tuples(st.just("get_parameters")), st.tuples(st.just("read_par_file")), st.tuples(st.just("fork"), names, vals))
     out = []
 
     @hseed(seed)
@@ -339,7 +347,7 @@ def record_traces(n, maxlen, seed, wd):
                     continue          # the constructor's treatment of numeric-looking text is left open (see Parameters.tla)
                 if kind in ("addpar", "addpar_sl"):
                     e = {"ev": kind, "n": s[1], "v": intern(s[2]), "vary": s[3], "cv": s[4], "st": intern(s[5])}
-                elif kind in ("set", "other_set"):
+                elif kind in ("set", "other_set", "fork"):
                     e = {"ev": kind, "n": s[1], "v": intern(s[2])}
                 elif kind in ("set_parameters", "construct"):
                     e = {"ev": kind, "d": {nm: intern(sp) for nm, sp in s[1].items()}}
